@@ -5,6 +5,7 @@ CONSTANTS
   BaseSeq <- BasesQuick
   WrapSeq <- WrapsAll
   RenSeq <- RensMC
+  DocSet = {FALSE}
   Family = "all"
   MaxFields = 2
   MaxDepth = 3
